@@ -231,9 +231,13 @@ def check_array(X, kind, acc, case, only=None):
             acc.n("traces")
             acc.n("transitions")
             try:
-                got = pnd.integer_ndarray(X.copy()).ndint_compress(method=method, axis=axis)
+                arr = pnd.integer_ndarray(X.copy())
+                got = arr.ndint_compress(method=method, axis=axis)
             except BaseException as e:
                 acc.violation(None, cs, {"what": "ndint_compress raised", "exc": repr(e), "array": X.tolist()})
+                continue
+            if np.asarray(arr).tolist() != X.tolist():
+                acc.violation(None, cs, {"what": "ndint_compress changed the priority array it was called on", "array": X.tolist(), "after": np.asarray(arr).tolist()})
                 continue
             acc.obs(method, axis, np.asarray(got).tolist())
             if kind == "3d":
@@ -272,6 +276,21 @@ def check_array(X, kind, acc, case, only=None):
                                          "levels(row,magnitude,sign)": levels(X2)})
                 continue
             nlev = max(nlev, len({l[:2] for l in levels(X2) if l is not None}))
+    if kind == "1d":
+        # 1-D input with an explicit axis=0: the VALUE is not claimed (see assumptions), but the caller's array must survive the call
+        for method in METHODS:
+            if only is not None:
+                break
+            arr = pnd.integer_ndarray(X.copy())
+            acc.n("transitions")
+            try:
+                arr.ndint_compress(method=method, axis=0)
+            except BaseException:
+                acc.n("unclaimed_1d_axis0_raised")
+                continue
+            if np.asarray(arr).tolist() != X.tolist():
+                acc.violation(None, dict(case, axis=0, method=method, unclaimed=True),
+                              {"what": "ndint_compress changed the priority array it was called on", "array": X.tolist(), "after": np.asarray(arr).tolist(), "axis": 0})
     if nlev >= 2:
         acc.nontriv(X.tolist())
     if acc.counts["arrays"] % 9000 == 1:
@@ -284,5 +303,5 @@ def replay(case, acc):
     else:
         kind, shape, alpha = spaces(case["tier"])[case["si"]]
         X = decode(case["idx"], shape, alpha)
-    only = (case["axis"], case["method"]) if "method" in case else None
+    only = (case["axis"], case["method"]) if ("method" in case and not case.get("unclaimed")) else None
     check_array(X, kind, acc, {"tier": case["tier"], "si": case["si"], "idx": case["idx"]}, only=only)
